@@ -230,7 +230,10 @@ struct Sess<'a> {
     /// scripted token clock: `verif::set_token_clock(SCRIPT_BASE + truth.now)` before each gate call
     scripted: bool,
 }
-const SCRIPT_BASE: u64 = 1_700_000_000;
+/// In the future of the real clock on purpose: the background sweep of every AuthManager
+/// (`SessionStore::cleanup_expired`, types.rs) still reads the real clock and would otherwise
+/// delete scripted-clock tokens as "expired" whenever it happens to run.
+const SCRIPT_BASE: u64 = 4_000_000_000;
 
 fn wall() -> std::time::Duration {
     std::time::SystemTime::now().duration_since(std::time::UNIX_EPOCH).unwrap()
